@@ -776,6 +776,18 @@ pub const TEMPLATES: &[&str] = &[
     "#{¦\n  // lead\n  a¦\n  b¦ // trail\n}\n",
     "#f(¦\n  a¦,¦\n  b¦,¦\n)\n",
     "#(¦\n  a¦:¦ 1¦,¦\n  b¦:¦ 2¦,¦\n)\n",
+    "+ - apples¦\n    (the red ones)¦\n  - pears\n",
+    "- - x¦\n    y¦\n",
+    "/ Term: - x¦\n    y¦\n",
+    "- + a¦\n    b¦\n    + c¦\n      d\n",
+    "- item #f(¦a,¦\n  b)¦ tail\n  more¦\n",
+    "= Head¦\n- a¦\n  - b¦\n    - c¦\n      text¦\n",
+    "#[¦\n  - a¦\n    b¦\n]\n",
+    "#f[¦\n  + x¦\n    $ y $¦\n]\n",
+    "#let f = x¦ =>¦ not¦ aaaa¦ ==¦ bbbb\n",
+    "#let f = (¦x¦)¦ =>¦ y¦ +=¦ a¦ *¦ b\n",
+    "#let f = x¦ =>¦ return¦ a¦ and¦ b¦ or¦ c\n",
+    "#let f = x¦ =>¦ -¦a¦ in¦ b\n",
 ];
 
 pub const TRIVIA: &[&str] = &[
